@@ -28,11 +28,23 @@ prop('C04',
               'A-PROTO', 'A-COMP', 'A-SIZE (well-formed container: sizes in range, unique paths)'],
      not_decided='that bufio.Scanner, the two io.Pipe readers of multiread and the (de)compressors deliver the same bytes to both producers; ReadSignature positional correspondence (see DESIGN)')
 
+SAFEKEEPER = [('/pwr', '(*safeKeeper).getBlockValidator'), ('/pwr', '(*safeKeeper).validateBlock'), ('/pwr', '(*safeKeeperReader).Read')]
+
+prop('C09',
+     functions=SAFEKEEPER + BLOCKVALIDATOR + HASHING,
+     assumes=['A-MD5 (assume iface BlockValidator: nil verdict <=> the data equals the signed block, length included)',
+              'A-FULLREAD: the inner reader of an old file is a regular file (Read fills the buffer unless at end of file; errors other than io.EOF are environment faults)',
+              'A-POOL: inner.GetSize(i) is the signed size of file i',
+              'aligned reads: a Read never leaves the 64 KiB block it starts in (32 KiB consumer buffers; assumed for io.CopyBuffer, see DESIGN C09)',
+              'environment faults (failing Seek on the old file, failing signature load) are outside the quantifier'],
+     not_decided='alignment inside io.Copy with ReadFrom destinations; deleted files (the pool\'s error path); getBlockValidator is trusted (sticky error not verified)')
+
 # properties with a registered check
-CLAIMED = {'C18', 'C04'}
+CLAIMED = {'C18', 'C04', 'C09'}
 # reasons for properties not claimed (kept current)
 NOT_APPLICABLE = {}
 LEVEL_TEXT = {
  'C18': {'text': 'Proof (modular, unbounded in write slicing and sizes): drip.Write/Close keep the ghost relation between accepted, validated and forwarded bytes for every slicing; the validate closure advances the block index once per call and emits one wound per call; ValidateAsWound/AsError decide exactly healthyBlock and report the signed block range.', 'design_ref': 'DESIGN.md §5 C18, App. A.2'},
+ 'C09': {'text': 'Proof: every byte a safekeeper Read hands out without error is a byte of the signed file (validated block + aligned read), nothing beyond the signed length is handed out, io.EOF is only reported at the signed end, the verdict cache only remembers valid for blocks that are on disk unchanged, and an undamaged file is never rejected at any offset 0..S.', 'design_ref': 'DESIGN.md §5 C09'},
  'C04': {'text': 'Proof of the function-level clauses: split function cases, one hash per scanned block plus the empty-file entry with correct index/short size, hash grouping by prefix sums of per-file hash counts (ComputeHashInfo, incl. error iff count differs), block validator verdicts; rolling/from-scratch weak hash equals the recursive specification.', 'design_ref': 'DESIGN.md §5 C04'},
 }
